@@ -363,6 +363,10 @@ def xfer (a : Air σ) (req : Pdu) : Air σ × Py Pdu :=
       | .c => (a, .error .transmission)
       | .d => if res.kind ≠ req.kind then (a, .error .protocol) else (a, .ok res)
 
+def _root_.NfcVerif.NfcDep.Pdu.fmt? : Pdu → Option Nat
+  | .dep fmt _ _ _ _ => some fmt
+  | _ => none
+
 def atnPdu : Pdu := if c.v.f26 then .dep fATN 0 c.idid none [] else .dep fATN 0 none none []
 
 /-- `request_attention(self, n, rwt, deadline)` -/
@@ -378,16 +382,17 @@ def reqAttention : Nat → Air σ → Air σ × Py Unit
       else (a', .ok ())
     | (a', .ok _) => (a', .error .attr)
 
-/-- `request_retransmission(self, n, rwt, deadline)`; NAK carries `self.pni` -/
-def reqRetrans (pni : Nat) : Nat → Air σ → Air σ × Py Pdu
+/-- `request_retransmission(self, n, rwt, deadline)`; NAK carries `self.pni`; `chained`: the
+outstanding request `req.pfb.fmt == MoreInformation` (repaired F27: an ACK is then accepted) -/
+def reqRetrans (pni : Nat) (chained : Bool) : Nat → Air σ → Air σ × Py Pdu
   | 0, a => (a, .error .protocol)
   | n+1, a =>
     if a.expired then (a, .error .timeout) else
     match xfer P a (.dep fNAK pni c.idid c.inad []) with
-    | (a', .error e) => if isComm e then reqRetrans pni n a' else (a', .error e)
+    | (a', .error e) => if isComm e then reqRetrans pni chained n a' else (a', .error e)
     | (a', .ok (.dep fmt rp did nad data)) =>
       if fmt = fTOX then (a', .error .protocol)
-      else if fmt = fINF ∨ fmt = fMORE ∨ (c.v.f27 ∧ fmt = fACK) then (a', .ok (.dep fmt rp did nad data))
+      else if fmt = fINF ∨ fmt = fMORE ∨ (c.v.f27 ∧ chained ∧ fmt = fACK) then (a', .ok (.dep fmt rp did nad data))
       else (a', .error .protocol)
     | (a', .ok _) => (a', .error .attr)
 
@@ -408,7 +413,7 @@ def sendDepLoop (pni : Nat) (req : Pdu) : Nat → Air σ → Air σ × Py Pdu
        | (a2, .ok ()) => sendDepLoop pni req fuel a2
        | (a2, .error e) => (a2, .error e))
     | (a1, .error .transmission) =>
-      (match reqRetrans P c pni 2 a1 with
+      (match reqRetrans P c pni (req.fmt? = some fMORE) 2 a1 with
        | (a2, .ok res) => nakCheck a2 res
        | (a2, .error e) => (a2, .error e))
     | (a1, .error e) => (a1, .error e)
@@ -416,10 +421,6 @@ def sendDepLoop (pni : Nat) (req : Pdu) : Nat → Air σ → Air σ × Py Pdu
 /-- `send_dep_req_recv_dep_res(req, rwt, timeout)`: a fresh deadline -/
 def sendDep (fuel pni : Nat) (a : Air σ) (req : Pdu) : Air σ × Py Pdu :=
   sendDepLoop P c pni req fuel { a with expired := false }
-
-def Pdu.fmt? : Pdu → Option Nat
-  | .dep fmt _ _ _ _ => some fmt
-  | _ => none
 
 /-- `for i in range(3): req = RTOX(res.data[0]) ...  else: raise TimeoutError` -/
 def rtoxLoop (fuel pni : Nat) : Nat → Air σ → Pdu → Air σ × Py Pdu
